@@ -308,3 +308,118 @@ func ownAllocation(v ssa.Value) bool {
 		}
 	}
 }
+
+// deterministicLibrary: library functions whose results depend only on their (value) arguments.
+var deterministicLibrary = map[string]bool{
+	"strings.ToLower": true, "strings.ToUpper": true, "strings.TrimSuffix": true, "strings.TrimPrefix": true,
+	"strings.HasSuffix": true, "strings.HasPrefix": true, "strings.CutSuffix": true, "strings.CutPrefix": true,
+	"golang.org/x/net/idna.ToASCII": true, "(*regexp.Regexp).MatchString": true,
+}
+
+// structuralFunctionObligations justifies "option function" (the results are a mathematical function of the
+// arguments, assumed at every call): the body takes only basic-typed values, touches no heap except its own
+// locals and package variables that are assigned only during package initialisation, and calls only functions
+// of the same kind or library functions known to be deterministic.
+func structuralFunctionObligations(P *Program, C *Contracts) *FuncResult {
+	var keys []string
+	for k, ct := range C.Funcs {
+		if ct.Function {
+			keys = append(keys, k)
+		}
+	}
+	if len(keys) == 0 {
+		return nil
+	}
+	sort.Strings(keys)
+	res := &FuncResult{Key: "structural/functions"}
+	initOnly := func(g *ssa.Global) bool {
+		for f := range P.allFns {
+			if f.Pkg != g.Pkg || len(f.Blocks) == 0 {
+				continue
+			}
+			isInit := f.Name() == "init" || strings.HasPrefix(f.Name(), "init#")
+			for _, b := range f.Blocks {
+				for _, in := range b.Instrs {
+					if st, ok := in.(*ssa.Store); ok && st.Addr == ssa.Value(g) && !isInit {
+						return false
+					}
+				}
+			}
+		}
+		return true
+	}
+	for _, k := range keys {
+		o := &Obligation{Name: "structural:function:" + k, Kind: "structural", Func: k, Static: true, Solver: "ssa-scan",
+			Detail: k + " computes its results from its arguments alone (no state read or written)"}
+		fn := P.Funcs[k]
+		var bad []string
+		if fn == nil || len(fn.Blocks) == 0 {
+			bad = append(bad, "no body")
+		} else {
+			if fn.Signature.Recv() != nil {
+				bad = append(bad, "has a receiver")
+			}
+			for _, p := range fn.Params {
+				if _, ok := p.Type().Underlying().(*types.Basic); !ok {
+					bad = append(bad, "parameter "+p.Name()+" is not of a basic type")
+				}
+			}
+			for _, b := range fn.Blocks {
+				for _, in := range b.Instrs {
+					why := ""
+					switch x := in.(type) {
+					case *ssa.Alloc:
+						if x.Heap {
+							why = "escaping allocation"
+						}
+					case *ssa.Store:
+						if _, ok := x.Addr.(*ssa.Alloc); !ok {
+							why = "store outside its own locals"
+						}
+					case *ssa.UnOp:
+						if x.Op == token.MUL {
+							switch a := x.X.(type) {
+							case *ssa.Alloc:
+							case *ssa.Global:
+								if !initOnly(a) {
+									why = "reads package variable " + a.Name() + ", which is assigned outside init"
+								}
+							default:
+								why = "load through a pointer"
+							}
+						} else if x.Op == token.ARROW {
+							why = "channel receive"
+						}
+					case *ssa.Call:
+						cal := x.Call.StaticCallee()
+						switch {
+						case x.Call.IsInvoke() || (cal == nil && x.Call.Value != nil && func() bool { _, isB := x.Call.Value.(*ssa.Builtin); return !isB }()):
+							why = "dynamic call"
+						case cal != nil:
+							ck := funcKey(cal)
+							lk := cal.String()
+							if ct := C.Funcs[ck]; !(ct != nil && ct.Function) && !deterministicLibrary[lk] {
+								why = "calls " + lk
+							}
+						}
+					case *ssa.BinOp, *ssa.Phi, *ssa.If, *ssa.Jump, *ssa.Return, *ssa.Extract, *ssa.Convert, *ssa.ChangeType,
+						*ssa.Slice, *ssa.Index, *ssa.Lookup, *ssa.DebugRef, *ssa.RunDefers:
+					default:
+						why = fmt.Sprintf("%T", in)
+					}
+					if why != "" {
+						bad = append(bad, why+" at "+P.pos(in.Pos()))
+					}
+				}
+			}
+		}
+		if len(bad) > 0 {
+			o.Status = "unknown"
+			o.Raw = k + " is declared a function of its arguments, but: " + strings.Join(dedupe(bad), "; ")
+		} else {
+			o.Status = "proved"
+		}
+		res.Obls = append(res.Obls, o)
+	}
+	return res
+}
